@@ -664,7 +664,10 @@ func invertSplit(sp *SplitExp, i CollectionIndex) (bool, Exp, error) {
 		m.Value = make(map[string]Exp, len(v.Value))
 		done := true
 		change := false
-		for k, vv := range v.Value {
+		// Take the entries in sorted key order, so that the order of the
+		// reported errors is repeatable.
+		for _, k := range v.sortedKeys() {
+			vv := v.Value[k]
 			d, e, err := getElement(vv, i, true)
 			if err != nil {
 				errs = append(errs, err)
